@@ -220,7 +220,7 @@ def g2_map(ctx, ids):
     others = [o for o in ex.obligations[nob:] if 'Failed to find square root' not in o.msg]
     term = [o for o in ex.obligations[nob:] if 'Failed to find square root' in o.msg]
     chk.must_unsat_any(pre + 'no panic other than the terminal one', [o.formula() for o in others])
-    chk.ground(pre + 'terminal panic guarded by exactly the eight failed tests', len(term) == 1, '%d terminal panic sites' % len(term))
+    chk.shape(pre + 'terminal panic guarded by exactly the eight failed tests', len(term) == 1, '%d terminal panic sites' % len(term))
     if term:
         chk.must_unsat(pre + 'terminal panic is reached only when all 4 + 4 tests fail', z3.And(term[0].formula(), z3.Not(none_before)), group='case-structure')
     # ground facts about the constants
